@@ -218,7 +218,7 @@ def r5(ctx, cg, fl):
     # owners: ADT fields (of ADTs with a Drop impl) whose Drop body removes that very field
     removers = {}
     for k, b in cg.bodies.items():
-        if b.impl_trait and b.impl_trait.endswith('Drop') and b.path.endswith('::drop'):
+        if b.impl_trait and b.impl_trait.endswith('Drop') and b.path.endswith('::drop') and not re.search(r'(^|::|<)tests?::', b.path):
             for c in b.calls(r'^std::fs::(remove_file|remove_dir_all|remove_dir)$'):
                 for n in closure_of(fl, fl.op_read(k, b, c.args[0]), 'back', 4, within=k):
                     if n[0] == 'F':
